@@ -20,7 +20,9 @@ use leptos_server::{
     ArcServerAction, ArcServerMultiAction, ServerAction, ServerActionError, ServerMultiAction,
 };
 use reactive_graph::{
-    actions::{Action, ActionAbortHandle, ArcAction, ArcMultiAction, ArcSubmission},
+    actions::{
+        Action, ActionAbortHandle, ArcAction, ArcMultiAction, ArcSubmission, MultiAction, Submission,
+    },
     computed::ArcMemo,
     owner::{provide_context, Owner},
     traits::{Get, GetUntracked},
@@ -35,6 +37,22 @@ enum Act {
     Arena(Action<i64, i64>),
     SrvArc(ArcServerAction<Call>),
     Srv(ServerAction<Call>),
+    /// `Action::from(ServerAction)`: the plain arena action inside the wrapper
+    SrvPlain(Action<Call, Res>),
+}
+
+/// what a reader sees: (pending, version, value, input)
+type View = (bool, usize, Option<i64>, Option<i64>);
+struct Tracked(ArcMemo<bool>, ArcMemo<usize>, ArcMemo<Option<i64>>, ArcMemo<Option<i64>>);
+impl Tracked {
+    fn view(&self) -> View {
+        (
+            self.0.get_untracked(),
+            self.1.get_untracked(),
+            self.2.get_untracked(),
+            self.3.get_untracked(),
+        )
+    }
 }
 
 impl Act {
@@ -47,6 +65,7 @@ impl Act {
             // the wrapper's own method (whatever it resolves to: inherent or through Deref)
             (Act::SrvArc(a), _) => a.dispatch(srvfn::prepare(i, rx.take().unwrap())),
             (Act::Srv(a), _) => a.dispatch(srvfn::prepare(i, rx.take().unwrap())),
+            (Act::SrvPlain(a), _) => a.dispatch(srvfn::prepare(i, rx.take().unwrap())),
         }
     }
     fn clear(&self) {
@@ -55,9 +74,45 @@ impl Act {
             Act::Arena(a) => a.clear(),
             Act::SrvArc(a) => a.clear(),
             Act::Srv(a) => a.clear(),
+            Act::SrvPlain(a) => a.clear(),
         }
     }
-    fn obs(&self, pending: &ArcMemo<bool>) -> Vec<Sexp> {
+    /// four memos that read pending / version / value / input *tracked*, the way an effect or a
+    /// view reading just that one would: each only changes when its signal notifies its subscribers
+    fn tracked(&self, local: bool) -> Tracked {
+        macro_rules! four {
+            ($p:expr, $v:expr, $val:expr, $inp:expr, $fv:expr, $fi:expr) => {{
+                let (p, v, val, inp) = ($p, $v, $val, $inp);
+                Tracked(
+                    ArcMemo::new(move |_| p.get()),
+                    ArcMemo::new(move |_| v.get()),
+                    ArcMemo::new(move |_| val.get().map($fv)),
+                    ArcMemo::new(move |_| inp.get().map($fi)),
+                )
+            }};
+        }
+        #[allow(deprecated)]
+        let m = match self {
+            Act::Arc(a) => four!(a.pending(), a.version(), a.value(), a.input(), |x| x, |x| x),
+            // the deprecated `_local` accessors are still public API
+            Act::Arena(a) if local => {
+                four!(a.pending(), a.version(), a.value_local(), a.input_local(), |x| x, |x| x)
+            }
+            Act::Arena(a) => four!(a.pending(), a.version(), a.value(), a.input(), |x| x, |x| x),
+            Act::SrvArc(a) => {
+                four!(a.pending(), a.version(), a.value(), a.input(), |r| of_res(&r), |c: Call| c.0)
+            }
+            Act::Srv(a) => {
+                four!(a.pending(), a.version(), a.value(), a.input(), |r| of_res(&r), |c: Call| c.0)
+            }
+            Act::SrvPlain(a) => {
+                four!(a.pending(), a.version(), a.value(), a.input(), |r| of_res(&r), |c: Call| c.0)
+            }
+        };
+        let _ = m.view(); // first evaluation: subscribes
+        m
+    }
+    fn obs(&self, pending: &ArcMemo<bool>, tracked: &Tracked) -> Vec<Sexp> {
         let (ver, val, inp) = match self {
             Act::Arc(a) => (
                 a.version().get_untracked(),
@@ -79,7 +134,18 @@ impl Act {
                 a.value().get_untracked().map(|r| of_res(&r)),
                 a.input().get_untracked().map(|c| c.0),
             ),
+            Act::SrvPlain(a) => (
+                a.version().get_untracked(),
+                a.value().get_untracked().map(|r| of_res(&r)),
+                a.input().get_untracked().map(|c| c.0),
+            ),
         };
+        let direct: View = (pending.get_untracked(), ver, val, inp);
+        let seen = tracked.view();
+        assert_eq!(
+            seen, direct,
+            "tracking readers of (pending, version, value, input) were not all notified: they see the left tuple"
+        );
         vec![
             Sexp::bool(pending.get_untracked()),
             Num(ver as i64),
@@ -141,7 +207,8 @@ fn single(variant: i64, events: &Sexp, restore: &Sexp) -> Sexp {
         }
     };
     let scope = Owner::new();
-    if variant >= 4 {
+    let server = matches!(variant, 4 | 5 | 9 | 10 | 11);
+    if server {
         use server_fn::ServerFn;
         match rp {
             Some(1) => {
@@ -166,9 +233,17 @@ fn single(variant: i64, events: &Sexp, restore: &Sexp) -> Sexp {
         (3, None) => (Act::Arena(Action::new_local(f)), true),
         (3, v) => (Act::Arena(Action::new_local_with_value(v, f)), true),
         (4, _) => (Act::SrvArc(ArcServerAction::new()), false),
-        _ => (Act::Srv(ServerAction::new()), false),
+        (5, _) => (Act::Srv(ServerAction::new()), false),
+        (6, None) => (Act::Arena(Action::new_unsync(f)), true),
+        (6, v) => (Act::Arena(Action::new_unsync_with_value(v, f)), true),
+        (7, None) => (Act::Arena(Action::new_unsync_local(f)), true),
+        (7, v) => (Act::Arena(Action::new_unsync_local_with_value(v, f)), true),
+        #[allow(deprecated)]
+        (8, _) => (Act::Arena(reactive_graph::actions::create_action(f)), false),
+        (9, _) => (Act::SrvPlain(ServerAction::<Call>::new().into()), false),
+        (10, _) => (Act::SrvArc(Default::default()), false),
+        _ => (Act::Srv(Default::default()), false),
     });
-    let server = variant >= 4;
     let pending = match &act {
         Act::Arc(a) => a.pending(),
         Act::SrvArc(a) => a.pending(),
@@ -180,7 +255,12 @@ fn single(variant: i64, events: &Sexp, restore: &Sexp) -> Sexp {
             let m = a.pending();
             ArcMemo::new(move |_| m.get())
         }
+        Act::SrvPlain(a) => {
+            let m = a.pending();
+            ArcMemo::new(move |_| m.get())
+        }
     };
+    let tracked = act.tracked(local);
     let base = exec::spawned();
     let mut handles: Vec<Option<ActionAbortHandle>> = vec![];
     let mut senders: Vec<Option<oneshot::Sender<i64>>> = vec![];
@@ -224,9 +304,31 @@ fn single(variant: i64, events: &Sexp, restore: &Sexp) -> Sexp {
                     drop(h.take());
                 }
             }
+            8 => {
+                // a dispatch while resource loads are suppressed (what leptos does while it
+                // renders a view only to discard it): nothing runs, nothing changes
+                let (_tx, rx) = oneshot::channel::<i64>();
+                let mut rx = Some(rx);
+                let before = exec::spawned();
+                reactive_graph::diagnostics::suppress_resource_load(true);
+                let h = if server {
+                    // the server function is not called either: no request is prepared
+                    match &act {
+                        Act::SrvArc(a) => a.dispatch(Call(k, u64::MAX)),
+                        Act::Srv(a) => a.dispatch(Call(k, u64::MAX)),
+                        Act::SrvPlain(a) => a.dispatch(Call(k, u64::MAX)),
+                        _ => unreachable!(),
+                    }
+                } else {
+                    act.dispatch(local, k, &mut rx)
+                };
+                reactive_graph::diagnostics::suppress_resource_load(false);
+                assert_eq!(exec::spawned(), before, "a suppressed dispatch spawns nothing");
+                h.abort();
+            }
             _ => {}
         }
-        let mut o = act.obs(&pending);
+        let mut o = act.obs(&pending, &tracked);
         o.push(Sexp::bool(exec::ready().is_empty()));
         out.push(Lst(o));
     }
@@ -240,6 +342,35 @@ enum MAct {
     Plain(ArcMultiAction<i64, i64>),
     SrvArc(ArcServerMultiAction<Call>),
     Srv(ServerMultiAction<Call>),
+    /// the arena handle; its submissions are read through the arena `Submission` type
+    Arena(MultiAction<i64, i64>),
+    /// `MultiAction::from(ServerMultiAction)`
+    SrvPlain(MultiAction<Call, Res>),
+}
+
+/// (version, per submission (input, value, pending, canceled))
+type MView = (usize, Vec<(Option<i64>, Option<i64>, bool, bool)>);
+struct MTracked(
+    ArcMemo<usize>,
+    ArcMemo<Vec<Option<i64>>>,
+    ArcMemo<Vec<Option<i64>>>,
+    ArcMemo<Vec<bool>>,
+    ArcMemo<Vec<bool>>,
+);
+impl MTracked {
+    fn view(&self) -> MView {
+        let (i, v, p, c) = (
+            self.1.get_untracked(),
+            self.2.get_untracked(),
+            self.3.get_untracked(),
+            self.4.get_untracked(),
+        );
+        let n = i.len().min(v.len()).min(p.len()).min(c.len());
+        (
+            self.0.get_untracked(),
+            (0..n).map(|k| (i[k], v[k], p[k], c[k])).collect(),
+        )
+    }
 }
 
 impl MAct {
@@ -248,6 +379,18 @@ impl MAct {
             MAct::Plain(a) => a.dispatch(i),
             MAct::SrvArc(a) => a.dispatch(srvfn::prepare(i, rx.take().unwrap())),
             MAct::Srv(a) => a.dispatch(srvfn::prepare(i, rx.take().unwrap())),
+            MAct::Arena(a) => a.dispatch(i),
+            MAct::SrvPlain(a) => a.dispatch(srvfn::prepare(i, rx.take().unwrap())),
+        }
+    }
+    /// a dispatch while resource loads are suppressed
+    fn dispatch_suppressed(&self, i: i64) {
+        match self {
+            MAct::Plain(a) => a.dispatch(i),
+            MAct::SrvArc(a) => a.dispatch(Call(i, u64::MAX)),
+            MAct::Srv(a) => a.dispatch(Call(i, u64::MAX)),
+            MAct::Arena(a) => a.dispatch(i),
+            MAct::SrvPlain(a) => a.dispatch(Call(i, u64::MAX)),
         }
     }
     fn dispatch_sync(&self, v: i64) {
@@ -255,6 +398,8 @@ impl MAct {
             MAct::Plain(a) => a.dispatch_sync(v),
             MAct::SrvArc(a) => a.dispatch_sync(to_res(v)),
             MAct::Srv(a) => a.dispatch_sync(to_res(v)),
+            MAct::Arena(a) => a.dispatch_sync(v),
+            MAct::SrvPlain(a) => a.dispatch_sync(to_res(v)),
         }
     }
     fn cancel(&self, k: usize) {
@@ -274,6 +419,16 @@ impl MAct {
                     s.cancel()
                 }
             }
+            MAct::Arena(a) => {
+                if let Some(s) = a.submissions().get_untracked().get(k) {
+                    Submission::from(s.clone()).cancel()
+                }
+            }
+            MAct::SrvPlain(a) => {
+                if let Some(s) = a.submissions().get_untracked().get(k) {
+                    Submission::from(s.clone()).cancel()
+                }
+            }
         }
     }
     fn version(&self) -> usize {
@@ -281,7 +436,35 @@ impl MAct {
             MAct::Plain(a) => a.version().get_untracked(),
             MAct::SrvArc(a) => a.version().get_untracked(),
             MAct::Srv(a) => a.version().get_untracked(),
+            MAct::Arena(a) => a.version().get_untracked(),
+            MAct::SrvPlain(a) => a.version().get_untracked(),
         }
+    }
+    /// version and each field of the records, each read *tracked* inside a memo of its own (what a
+    /// view iterating over the submissions and reading that field sees)
+    fn tracked(&self) -> MTracked {
+        macro_rules! five {
+            ($a:expr, $fi:expr, $fv:expr) => {{
+                let v = $a.version();
+                let (s1, s2, s3, s4) = ($a.submissions(), $a.submissions(), $a.submissions(), $a.submissions());
+                MTracked(
+                    ArcMemo::new(move |_| v.get()),
+                    ArcMemo::new(move |_| s1.get().iter().map(|s| s.input().get().map($fi)).collect()),
+                    ArcMemo::new(move |_| s2.get().iter().map(|s| s.value().get().map($fv)).collect()),
+                    ArcMemo::new(move |_| s3.get().iter().map(|s| s.pending().get()).collect()),
+                    ArcMemo::new(move |_| s4.get().iter().map(|s| s.canceled().get()).collect()),
+                )
+            }};
+        }
+        let m = match self {
+            MAct::Plain(a) => five!(a, |x| x, |x| x),
+            MAct::SrvArc(a) => five!(a, |c: Call| c.0, |r| of_res(&r)),
+            MAct::Srv(a) => five!(a, |c: Call| c.0, |r| of_res(&r)),
+            MAct::Arena(a) => five!(a, |x| x, |x| x),
+            MAct::SrvPlain(a) => five!(a, |c: Call| c.0, |r| of_res(&r)),
+        };
+        let _ = m.view();
+        m
     }
     fn records(&self) -> Vec<Sexp> {
         fn rec(inp: Option<i64>, val: Option<i64>, p: bool, c: bool) -> Sexp {
@@ -315,6 +498,47 @@ impl MAct {
                 .collect(),
             MAct::SrvArc(a) => srv(a.submissions().get_untracked()),
             MAct::Srv(a) => srv(a.submissions().get_untracked()),
+            // through the arena `Submission` handles
+            MAct::Arena(a) => a
+                .submissions()
+                .get_untracked()
+                .iter()
+                .enumerate()
+                .map(|(k, s)| {
+                    if k % 2 == 1 {
+                        // … or, every other one, through a LocalStorage `Submission`
+                        use reactive_graph::owner::{FromLocal, LocalStorage};
+                        let s = Submission::<i64, i64, LocalStorage>::from_local(s.clone());
+                        return rec(
+                            s.input().get_untracked(),
+                            s.value().get_untracked(),
+                            s.pending().get_untracked(),
+                            s.canceled().get_untracked(),
+                        );
+                    }
+                    let s = Submission::from(s.clone());
+                    rec(
+                        s.input().get_untracked(),
+                        s.value().get_untracked(),
+                        s.pending().get_untracked(),
+                        s.canceled().get_untracked(),
+                    )
+                })
+                .collect(),
+            MAct::SrvPlain(a) => a
+                .submissions()
+                .get_untracked()
+                .iter()
+                .map(|s| {
+                    let s = Submission::from(s.clone());
+                    rec(
+                        s.input().get_untracked().map(|c| c.0),
+                        s.value().get_untracked().map(|r| of_res(&r)),
+                        s.pending().get_untracked(),
+                        s.canceled().get_untracked(),
+                    )
+                })
+                .collect(),
         }
     }
 }
@@ -331,9 +555,14 @@ fn multi(events: &Sexp, mv: i64) -> Sexp {
     let act = match mv {
         1 => MAct::SrvArc(ArcServerMultiAction::new()),
         2 => MAct::Srv(ServerMultiAction::new()),
+        3 => MAct::Arena(MultiAction::new(f)),
+        4 => MAct::SrvPlain(ServerMultiAction::<Call>::new().into()),
+        5 => MAct::SrvArc(Default::default()),
+        6 => MAct::Srv(Default::default()),
         _ => MAct::Plain(ArcMultiAction::new(f)),
     };
-    let server = mv == 1 || mv == 2;
+    let server = matches!(mv, 1 | 2 | 4 | 5 | 6);
+    let tracked = act.tracked();
     let mut senders: Vec<Option<oneshot::Sender<i64>>> = vec![];
     // task index of each submission (dispatch_sync spawns nothing)
     let mut task_of: Vec<Option<usize>> = vec![];
@@ -373,11 +602,33 @@ fn multi(events: &Sexp, mv: i64) -> Sexp {
                 task_of.push(None);
                 senders.push(None);
             }
+            8 => {
+                let before = exec::spawned();
+                reactive_graph::diagnostics::suppress_resource_load(true);
+                act.dispatch_suppressed(k);
+                reactive_graph::diagnostics::suppress_resource_load(false);
+                assert_eq!(exec::spawned(), before, "a suppressed dispatch spawns nothing");
+            }
             _ => {}
         }
+        let recs = act.records();
+        let seen = tracked.view();
+        let seen_s: Vec<Sexp> = seen
+            .1
+            .iter()
+            .map(|(i, v, p, c)| Lst(vec![opt(*i), opt(*v), Sexp::bool(*p), Sexp::bool(*c)]))
+            .collect();
+        assert!(
+            seen.0 == act.version() && seen_s == recs,
+            "a tracking reader of the submissions was not notified: it sees version {} and {} while a direct read gives version {} and {}",
+            seen.0,
+            Lst(seen_s.clone()),
+            act.version(),
+            Lst(recs.clone())
+        );
         out.push(Lst(vec![
             Num(act.version() as i64),
-            Lst(act.records()),
+            Lst(recs),
             Sexp::bool(exec::ready().is_empty()),
         ]));
     }
